@@ -51,7 +51,7 @@ def _gen0(rng, tier):
         t0 = rng.choice([2, 3, 4])
         yield {'trajs': trajs, 'lag': t0 + rng.choice([1, 2]), 'iter': True, 'form': 'obj', 'alpha': akind, 'pre': [[t0, False]]}
     for _ in range(G.budget(4) if tier == 'quick' else 100):       # arrays of different widths / signedness with > 128 states
-        trajs, dtypes, tag = G.narrow_set(rng, rng.choice(['many-mixed', 'many-unsigned']))
+        trajs, dtypes, tag = G.narrow_set(rng, rng.choice(['many-mixed', 'many-unsigned', 'narrow-many', 'narrow-many', 'full-range']))
         yield {'trajs': trajs, 'lag': rng.choice([1, 2]), 'iter': rng.random() < 0.5, 'form': 'loa', 'alpha': tag, 'dtypes': dtypes}
     for _ in range(G.budget(10) if tier == 'quick' else 150):      # unusual sizes (many trajectories / frames / states, empty members)
         trajs, tag = G.size_classes(rng, lag=3, sticky=0.9)
